@@ -257,6 +257,9 @@ int32_t jls_raw_wr_payload(struct jls_raw_s * self, uint32_t payload_length, con
         RLE(jls_raw_rd_header(self, hdr));
     }
     if (!payload_length) {
+        if (self->backend.fpos >= self->backend.fend) {
+            self->last_payload_length = 0;  // for the next chunk's payload_prev_length
+        }
         return 0;  // no action necessary
     }
     if (!payload) {
